@@ -91,6 +91,28 @@ type foldChecker struct {
 	pos int
 	ok  bool // conjunction of all comparisons (symbolic)
 	bad bool // structural mismatch (concrete)
+	// renderings of the items of the list or of the bounds of the boundary expect() saw last
+	parts []string
+}
+
+// carriesInOrder reports whether every part occurs in hay, in order and without overlap
+// (leftmost matching, which finds such an arrangement whenever one exists).
+func carriesInOrder(hay string, parts []string) bool {
+	pos := 0
+	for _, p := range parts {
+		found := false
+		for i := pos; i+len(p) <= len(hay); i++ {
+			if hay[i:i+len(p)] == p {
+				pos = i + len(p)
+				found = true
+				break
+			}
+		}
+		if !found {
+			return false
+		}
+	}
+	return true
 }
 
 func intString(i int) string { return strconv.Itoa(i) }
@@ -115,7 +137,9 @@ func (c *foldChecker) expect(v any) string {
 		return ""
 	case *expr.Expression:
 		l := c.expect(x.Left)
+		lparts := c.parts
 		r := c.expect(x.Right)
+		rparts := c.parts
 		if c.bad || c.pos >= len(c.log) {
 			c.bad = true
 			return ""
@@ -125,29 +149,40 @@ func (c *foldChecker) expect(v any) string {
 		if e.regOp != x.Op {
 			c.bad = true
 		}
-		// the text handed over for a list (items joined) or a range boundary (both bounds in one
-		// string) is an internal protocol the property does not fix: those arguments are not compared
+		// how a list (items joined) or a range boundary (both bounds in one string) is laid out is
+		// an internal protocol the property does not fix: of those arguments only that they carry
+		// the rendering of every item, in order, is compared
 		_, leftIsList := x.Left.([]*expr.Expression)
 		_, rightIsBoundary := x.Right.(*expr.RangeBoundary)
 		if !leftIsList {
 			c.ok = rtAnd(c.ok, rtOr(e.left == l, e.left == "("+l+")"))
+		} else if !carriesInOrder(e.left, lparts) {
+			c.ok = false
 		}
 		if !rightIsBoundary {
 			c.ok = rtAnd(c.ok, rtOr(e.right == r, e.right == "("+r+")"))
+		} else if !carriesInOrder(e.right, rparts) {
+			c.ok = false
 		}
+		c.parts = nil
 		return e.ret
 	case []*expr.Expression:
 		s := ""
+		var parts []string
 		for i, e := range x {
 			if i > 0 {
 				s += ", "
 			}
-			s += c.expect(e)
+			it := c.expect(e)
+			parts = append(parts, it)
+			s += it
 		}
+		c.parts = parts
 		return s
 	case *expr.RangeBoundary:
 		mn := c.expect(x.Min)
 		mx := c.expect(x.Max)
+		c.parts = []string{mn, mx}
 		if x.Inclusive {
 			return "[" + mn + ", " + mx + "]"
 		}
